@@ -10,6 +10,7 @@ import (
 	"runtime/debug"
 	"strings"
 	"testing"
+	"testing/iotest"
 	"time"
 
 	"github.com/alecthomas/participle/v2"
@@ -72,6 +73,8 @@ func putForGrammar(b *gram.Built) *put {
 			ast, err = b.P.ParseBytes(filename, in, opts...)
 		case "namedreader":
 			ast, err = b.P.Parse(filename, fixtures.NamedReader{Reader: bytes.NewReader(in)}, opts...)
+		case "dataerr":
+			ast, err = b.P.Parse(filename, iotest.DataErrReader(bytes.NewReader(in)), opts...)
 		case "reader", "slowreader":
 			ast, err = b.P.Parse(filename, bytes.NewReader(in), opts...)
 		default:
